@@ -206,7 +206,9 @@ void c13_curve(vf::Tape & t, vf::Ctx & ctx)
       if (!inside) {
         ctx.require("locality: curve unchanged outside knot intervals i-K..i", coeffs_of(y1) == coeffs_of(y2) && (v1 - v2).isZero(0) && (a1 - a2).isZero(0));
       } else if (nz) {
-        ctx.require("locality: curve changes inside the support", !(coeffs_of(y1) == coeffs_of(y2)));
+        // not a clause of the property (a perturbation below one ulp legitimately changes nothing): counted so that the
+        // evidence shows the locality cases are not vacuous
+        ctx.label(coeffs_of(y1) == coeffs_of(y2) ? "locality:inside-support-unchanged(perturbation below resolution)" : "locality:inside-support-changed");
       }
       nontriv = true;
     }
